@@ -107,6 +107,10 @@ def c13(tier, seed):
     def sched(year, n):
         p = dt.date(year, 4, 20)
         return [[L.dstr(p + dt.timedelta(days=rnd.randrange(-30, 230))), rnd.choice([5, 18.5, 30, 60])] for _ in range(n)]
+    # threshold strategy: configurations whose decision on a given day discriminates between the growth stages' thresholds
+    for j, (smt, pct) in enumerate([([70, 70, 70, 0], 40), ([10, 80, 80, 90], 50), ([90, 20, 60, 40], 35), ([30, 90, 30, 90], 45)]):
+        scs.append(S(["Maize", "Wheat", "Tomato", "Sorghum"][j], ["SandyLoam", "Loam", "Clay", "Sand"][j], seed=seed + 70 + j, regime="arid",
+                     irr={"method": 1, "kw": {"SMT": smt}}, iwc={"wc_type": "Pct", "value": [pct]}, seasons=2, off_season=(j % 2 == 1)))
     n_each = 40 if tier == "thorough" else 3
     for method in range(6):
         for j in range(n_each):
